@@ -20,9 +20,26 @@ use std::collections::{HashMap, HashSet};
 use crate::pipeline::normalize_machine::normalize_machine;
 
 /// Converts the AST to a finite state machine (FSM).
-pub fn validated_ast_to_machine(file: &File) -> Machine {
+pub fn validated_ast_to_machine(file: &File) -> /*@[*/(r: /*@]*/Machine/*@[*/)/*@]*/
+    //@[ C17 C04 C11 C14 validated_ast_to_machine: the LALR(1) automaton of the file's grammar, up to the renumbering done by normalisation
+    ensures is_lalr_of(file, r),
+    //@]
+{
     let builder = UnnormalizedMachineBuilder::new(file);
+    //@[ proof
+    let ghost gr = builder.gr();
+    //@]
     let unnormalized = builder.build();
+    //@[ proof
+    proof {
+        let st = unnormalized.states@;
+        let its = st.map_values(|s: State| s.items@);
+        assert forall|i: int, j: int| 0 <= i < j < st.len() implies #[trigger] st[i] != #[trigger] st[j] by {
+            if st[i] == st[j] { assert(its[i] == its[j]); lemma_same_core_refl(its[i]); assert(same_core(its[i], its[j])); }
+        }
+        assert(gr == file_gram(file));
+    }
+    //@]
     normalize_machine(unnormalized)
 }
 
@@ -152,6 +169,20 @@ impl<'a> UnnormalizedMachineBuilder<'a> {
         &&& forall|i: int| 0 <= i < self.queue@.len() ==> (#[trigger] self.queue@[i]).0 < self.states@.len()
         &&& forall|t: Transition| #[trigger] self.transitions@.contains(t) ==> t.from.0 < self.states@.len() && t.to.0 < self.states@.len()
     }
+}
+
+/// the augmented grammar of a validated file
+pub open spec fn file_gram(file: &File) -> Gram<'_> { Gram { g: file_rules(file), start: file.start } }
+
+/// m is the LALR(1) automaton of the file's grammar up to a renumbering of the states: there are item sets and
+/// transitions satisfying machine_is_lalr (state 0 = start state) of which m is the image under a bijection of indices
+pub open spec fn is_lalr_of(file: &File, m: Machine) -> bool {
+    exists|states: Seq<State>, tr: Set<Transition>, pi: Seq<usize>|
+        #![trigger crate::pipeline::normalize_machine::is_renumbering(pi, states, tr, m)]
+        machine_is_lalr(file_gram(file), states.map_values(|st: State| st.items@), tr)
+        && (forall|s: int| 0 <= s < states.len() ==> (#[trigger] states[s]).items.wf())
+        && (forall|s: int, x: StateItem| 0 <= s < states.len() && #[trigger] states[s].items@.contains(x) ==> item_wf(file_gram(file), x))
+        && crate::pipeline::normalize_machine::is_renumbering(pi, states, tr, m)
 }
 
 /// the start configuration satisfies the invariant
